@@ -53,7 +53,7 @@ from psyclone.psyir.nodes import Routine, Assignment, Reference, Literal, \
     Call, Container, BinaryOperation, IntrinsicCall, ArrayReference, Range
 from psyclone.psyir.symbols import SymbolTable, ImportInterface, Symbol, \
     ContainerSymbol, ScalarType, ArrayType, RoutineSymbol, DataSymbol, \
-    INTEGER_TYPE, UnresolvedType, UnsupportedType
+    BOOLEAN_TYPE, INTEGER_TYPE, UnresolvedType, UnsupportedType
 
 
 #: The extent we will allocate to each dimension of arrays used in the
@@ -451,6 +451,7 @@ def generate_adjoint_test(tl_psyir, ad_psyir,
     # Create necessary variables for the kernel arguments.
     inputs = []
     input_copies = []
+    non_real_args = []
     new_arg_list = []
     for arg in tl_kernel.symbol_table.argument_list:
         if arg in dimensioning_args:
@@ -512,6 +513,12 @@ def generate_adjoint_test(tl_psyir, ad_psyir,
             # we must ensure that the latter is also in the symbol table.
             _add_precision_symbol(arg.datatype.precision, symbol_table)
         new_arg_list.append(new_sym)
+        if new_sym.datatype.intrinsic != ScalarType.Intrinsic.REAL:
+            # This argument cannot be initialised with random_number() and
+            # (since it cannot be active) does not take part in the inner
+            # products.
+            non_real_args.append(new_sym)
+            continue
         # Create variables to hold a copy of the inputs
         input_sym = symbol_table.new_symbol(new_sym.name+"_input",
                                             symbol_type=type(new_sym),
@@ -537,6 +544,19 @@ def generate_adjoint_test(tl_psyir, ad_psyir,
         # Keep a copy of the value of this argument.
         statements.append(
             Assignment.create(Reference(sym_record), Reference(sym)))
+    for sym in non_real_args:
+        # TODO #2087 - just set integer arguments to 1 and logical arguments
+        # to false for the moment (as is done in the LFRic test harness).
+        if sym.datatype.intrinsic == ScalarType.Intrinsic.INTEGER:
+            value = Literal("1", INTEGER_TYPE)
+        elif sym.datatype.intrinsic == ScalarType.Intrinsic.BOOLEAN:
+            value = Literal("false", BOOLEAN_TYPE)
+        else:
+            raise NotImplementedError(
+                f"Found argument '{sym.name}' to kernel '{tl_kernel.name}' "
+                f"which is of type '{sym.datatype}'. Only arguments of real, "
+                f"integer or logical type are supported.")
+        statements.append(Assignment.create(Reference(sym), value))
     statements[0].preceding_comment = ("Initialise the kernel arguments and "
                                        "keep copies of them")
 
